@@ -179,11 +179,11 @@ int main(void) {
 '''
 
 
-def build_harness(repo_copy, workdir, ops, cc="gcc", copts=("-O1",)):
+def build_harness(repo_copy, workdir, ops, cc="gcc", copts=("-O1",), w2c2_opts=()):
     w2c2 = build_w2c2(repo_copy, workdir)
     wasm = os.path.join(workdir, "ops.wasm")
     open(wasm, "wb").write(build_module(repo_copy, ops))
-    p = subprocess.run([w2c2, wasm, os.path.join(workdir, "ops.c")], stdout=subprocess.PIPE, stderr=subprocess.PIPE, text=True)
+    p = subprocess.run([w2c2] + list(w2c2_opts) + [wasm, os.path.join(workdir, "ops.c")], stdout=subprocess.PIPE, stderr=subprocess.PIPE, text=True)
     if p.returncode != 0:
         raise RuntimeError(f"w2c2 failed on the op module: rc={p.returncode} {p.stderr[-1000:]}")
     disp = []
